@@ -770,7 +770,14 @@ std::string gen(Rng &r, const Args &a) {
       o << " (arith " << d << " " << AOP[r.below(r.below(3) ? 3 : 7)] << " v" << gpick(r, g) << " v" << gpick(r, g) << " " << z << ")";
     } else if (k < 30) {
       std::string z = r.coin() ? V(gpick(r, g)) : std::to_string(r.range(0, 12));
-      o << " (bitw " << d << " " << BOP[r.below(6)] << " v" << gpick(r, g) << " v" << gpick(r, g) << " " << z << ")";
+      unsigned bo = r.below(6);
+      // see h_dom.cpp: bounded amount for a variable left shift in histories with big constants (F22)
+      if (bo == 3 && z[0] == 'v' && big_ok) {
+        // (an assumed bound is not enough: domains that ignore inequalities keep the big constant)
+        if (r.coin()) o << " (assign " << d << " " << z << " (lin " << r.range(0, 12) << "))";
+        else z = std::to_string(r.range(0, 12));
+      }
+      o << " (bitw " << d << " " << BOP[bo] << " v" << gpick(r, g) << " v" << gpick(r, g) << " " << z << ")";
     } else if (k < 52) {
       o << " (assume " << d;
       unsigned n = 1 + (r.below(4) == 0 ? r.below(3) : 0);
